@@ -23,7 +23,7 @@ from harness.gnpy_util import EX, TD, REPO, equipment
 from harness import documents_util as du
 
 ROOT = Path(__file__).resolve().parent.parent.parent
-QUICK_SAMPLE = {'topology': 330, 'equipment': 105, 'service': 220, 'spectrum': 40, 'simparams': 32}
+QUICK_SAMPLE = {'topology': 240, 'equipment': 105, 'service': 180, 'spectrum': 40, 'simparams': 32}
 MINI_TOPO = {'elements': [{'uid': 'trx A', 'type': 'Transceiver'}, {'uid': 'trx B', 'type': 'Transceiver'},
                           {'uid': 'fiber', 'type': 'Fiber', 'type_variety': 'SSMF',
                            'params': {'length': 50.0, 'loss_coef': 0.2, 'length_units': 'km', 'att_in': 0,
@@ -37,7 +37,9 @@ class Bench:
         from gnpy.core.parameters import SimParams
         du.cache_yang_context()
         self.wd = Path(tempfile.mkdtemp(prefix='c18-', dir=ROOT / 'build'))
-        self.eq_topo = equipment('eqpt_config_multiband.json')          # tests/data: has the multiband amplifiers
+        from gnpy.tools.json_io import load_equipments_and_configs
+        # example-data library: multiband amplifiers (std_medium_gain_C / _L), RamanFiber, the single-band types of the frame
+        self.eq_topo = load_equipments_and_configs(EX / 'eqpt_config_multiband.json', [], [])
         self.eq_serv = equipment('eqpt_config.json')
         self.base_eqpt = EX / 'eqpt_config.json'
         self.mini_topo = self.wd / 'mini_topo.json'
@@ -58,7 +60,7 @@ class Bench:
             net = jio.load_network(path, eqpt or self.eq_topo)
             return {'nodes': {n.uid: n for n in net.nodes()},
                     'edges': sorted(f'{a.uid}->{b.uid}:{w["weight"]!r}' for a, b, w in net.edges(data=True))}
-        if kind == 'equipment' and role == 'main':
+        if kind == 'equipment' and role in ('main', 'reordered', 'written'):
             return jio.load_equipments_and_configs(path, [], [])
         if kind == 'equipment' and role == 'extra':
             return jio.load_equipments_and_configs(self.base_eqpt, [path], [])
@@ -143,10 +145,30 @@ def observe(bench, doc, as_int, name):
                 tr.setdefault(fld, du.placeholder(kind, f2))
             break
     det['yang_json'], det['back_json'] = Y, L
+    tr['lr'] = tr['lw'] = du.placeholder(kind, 'legacy')
+    others = {}
+    if Y is not None:
+        from gnpy.tools.yang_convert_utils import dump_data
+        # two more YANG files of the same document: keyed lists in another order; the file written by gnpy's writer
+        for stage, make, field in (('reordered', lambda: du.reorder_keyed_lists(kind, Y), 'lr'),
+                                   ('written', lambda: json.loads(dump_data(copy.deepcopy(Y))), 'lw')):
+            try:
+                other = make()
+                proj, _ = du.PROJECT[kind](yang_to_legacy(copy.deepcopy(other)), 'legacy')
+                tr[field] = proj if proj is not None else du.placeholder(kind, 'legacy')
+                others[stage] = other
+            except Exception as e:               # noqa
+                tr['exc'].append(dict(stage=stage, what=type(e).__name__))
+                det['exceptions'].append(f'{stage}: {type(e).__name__}: {str(e)[:400]}')
     if Y is not None:
         ld, rep = bench.load_pair(kind, J, Y)
         tr['loads'].append(ld)
         det['loads'].append(rep)
+        for role, other in others.items():
+            # "legacy" side of these pairs = the converter's in-memory YANG output written as is
+            ld, rep = bench.load_pair(kind, Y, other, role=role)
+            tr['loads'].append(ld)
+            det['loads'].append(rep)
         if kind == 'equipment':
             ld, rep = bench.load_pair(kind, J, Y, role='extra')
             tr['loads'].append(ld)
@@ -177,7 +199,7 @@ def judge(traces, chk, tag):
     out = {}
     for t in traces:
         v = verdicts.get(t['name'])
-        if v is None or v['n'] != 4:
+        if v is None or v['n'] != 5:
             raise Machinery(f'no complete verdict for trace {t["name"]}')
         out[t['name']] = [tuple(x) for x in v['viol']]
     return out
@@ -228,8 +250,11 @@ def classify(tr, det, stage, clause):
     doc = tr.get('doc', {})
     kind = doc.get('kind', tr.get('dkind', '?'))
     what = ''
-    if clause in ('RoundTrip', 'NoForeignKeysInLegacy', 'StructurePreserved') and tr.get('l'):
-        comps = diff_components(doc, dict(tr['l'], extra=[])) if tr['l'].get('extra') != ['~no-document'] else []
+    if clause in ('RoundTrip', 'NoForeignKeysInLegacy', 'StructurePreserved', 'KeyedListOrderIrrelevant',
+                  'WrittenFileMeansTheSame') and tr.get('l'):
+        obs = tr[{'KeyedListOrderIrrelevant': 'lr', 'WrittenFileMeansTheSame': 'lw'}.get(clause, 'l')]
+        ref = doc if obs is tr['l'] else dict(tr['l'], extra=[])
+        comps = diff_components(ref, dict(obs, extra=[])) if obs.get('extra') != ['~no-document'] else []
         comps = sorted({re.sub(r'\[\]|#len', '', c).split('.')[1] + '.' + re.sub(r'\[\]|#len', '', c).split('.')[2]
                         if c.count('.') >= 2 else c for c in comps})
         what = ','.join(comps[:4])
@@ -443,11 +468,21 @@ def run(chk):
                                    exceptions=det['exceptions'],
                                    loads=[{k: v for k, v in x.items() if k not in ('all_differing', 'classes')}
                                           for x in det['loads']],
-                                   observed={k: tr.get(k) for k in ('y', 'l') if clause in ('RoundTrip', 'YangFormAsSpecified',
+                                   observed={k: tr.get(k) for k in ('y', 'l', 'lr', 'lw') if clause in ('RoundTrip', 'YangFormAsSpecified',
                                                                                           'NoForeignKeysInLegacy',
                                                                                           'NoForeignKeysInYang',
-                                                                                          'StructurePreserved')},
+                                                                                          'StructurePreserved',
+                                                                                          'KeyedListOrderIrrelevant',
+                                                                                          'WrittenFileMeansTheSame')},
                                    lib=tr['lib'] if clause == 'AliasesReportTheirName' else None))
+        # the load clauses must not be vacuous: most documents of every kind are accepted by the loader of the legacy form
+        for k in sorted({t['doc']['kind'] for t in traces}):
+            mine = [t for t in traces if t['doc']['kind'] == k and t['loads']]
+            okl = sum(1 for t in mine if t['loads'][0]['ea'] == 'ok')
+            chk.cov[f'b2_{k}_loaded_ok'] = f'{okl}/{len(mine)}'
+            if not chk.mutant and mine and okl * 4 < len(mine):
+                raise Machinery(f'only {okl} of {len(mine)} {k} documents are accepted by the loader: the frame of '
+                                f'the harness does not fit the library any more')
         chk.cov['b2_document_runs'] = len(traces)
         chk.cov['b2_documents'] = len(ordered)
         chk.cov['b2_documents_by_kind'] = {k: sum(1 for t in traces if t['doc']['kind'] == k)
